@@ -116,6 +116,17 @@ def main():
                 res = show(T[r])
             elif op == "show":
                 res = show(T[int(a[0])])
+            elif op == "fsqrt":
+                # IEEE sqrt on the hardware (what f64::sqrt compiles to): validates the model's exact sqrt
+                res = "ok " + fcanon(math.sqrt(float(int(a[0]))))
+            elif op == "fcos":
+                # the argument handed to acos, recomputed with hardware IEEE operations in the order the
+                # Rust code uses: min(prod as f64 / (sqrt(a_sq as f64) * sqrt(b_sq as f64)), 1.)
+                pp, aa, bb = (float(int(x)) for x in a)
+                if aa == 0 or bb == 0:
+                    res = "bad-op"
+                else:
+                    res = "ok " + fcanon(min(pp / (math.sqrt(aa) * math.sqrt(bb)), 1.0))
             elif op == "compat":
                 x, y = T[int(a[0])], T[int(a[1])]
                 res = f"ok {int(bool(x.is_compatible(y)))}"
